@@ -401,7 +401,7 @@ package rag
 // ---- C12 (layout-based chunker): every chunk reports the final number of chunks; constructors stamp the index ----
 //@ func (*Chunker) createChunk results (ch)
 //@   property C12
-//@   flags nosafety
+//@   flags nosafety, recvreadonly
 //@   ensures stamped: ch.Metadata.ChunkIndex == index && ch.Metadata.PageStart == section.PageStart && ch.Metadata.PageEnd == section.PageEnd && ch.Metadata.SectionTitle == section.Title && ch.Metadata.DocumentTitle == docTitle && ch.Text == text
 
 //@ func (*Chunker) Chunk results (res, err)
@@ -411,3 +411,14 @@ package rag
 //@   ensures every_chunk_reports_the_total: !err ==> forall k int :: {res.Chunks[k]} 0 <= k && k < len(res.Chunks) ==> res.Chunks[k].Metadata.TotalChunks == len(res.Chunks)
 //@   loop 1:
 //@     invariant len(result.Chunks) == entry(len(result.Chunks)) && forall k int :: {result.Chunks[k]} 0 <= k && k < $i ==> result.Chunks[k].Metadata.TotalChunks == len(result.Chunks)
+
+// ---- C13: sentence-wise splitting: a piece exceeds the maximum only when it is one single sentence ----
+// (the joining space counts: two sentences of 23 and 17 bytes do not fit a 40-byte piece)
+//@ func (*Chunker) splitBySentences results (res)
+//@   property C13
+//@   flags nosafety
+//@   requires !isnil(c) && !isnil(section) && !isnil(chunkIndex) && c.config.MaxChunkSize >= 0
+//@   callsite createChunk(t) requires fits_or_is_one_sentence: len(t) <= c.config.MaxChunkSize || exists k int :: {sentences[k]} 0 <= k && k < len(sentences) && len(t) == len(sentences[k])
+//@   loop 0:
+//@     invariant !isnil(chunkIndex)
+//@     invariant currentText.Len() <= c.config.MaxChunkSize || ($i >= 1 && currentText.Len() == len(sentences[$i-1]))
